@@ -4410,3 +4410,114 @@ func sharedSetReplyKeepsRcode(c *an.Ctx, rule string) (examined int) {
 	}
 	return examined
 }
+
+// sharedTTLStoreSkipsOPT is the rule for code that rewrites record TTLs: the
+// "TTL" field of an OPT pseudo-record is not a TTL but the extended response
+// code, the EDNS version and the DO bit.  A store to RR_Header.Ttl of a record
+// that may come from a message's additional section must therefore be guarded
+// by a test that the record is not an OPT (Rrtype != TypeOPT, or a type
+// assertion), as the simple cache does.  Returns the number of TTL stores on
+// records of an additional section examined.
+func sharedTTLStoreSkipsOPT(c *an.Ctx, rule string, prefixes ...string) (examined int) {
+	optType, _ := c.ConstInt("github.com/miekg/dns", "TypeOPT")
+	for _, fn := range c.AllFns {
+		if fn.Blocks == nil || c.IsTestFile(fn.Pos()) || !hasAnyPrefix(an.FnKey(fn), prefixes) {
+			continue
+		}
+		k := an.FnKey(fn)
+		// may the record come from an Extra section?
+		var fromExtra func(v ssa.Value, d int, seen map[ssa.Value]bool) bool
+		fromExtra = func(v ssa.Value, d int, seen map[ssa.Value]bool) bool {
+			if v == nil || d > 14 || seen[v] {
+				return false
+			}
+			seen[v] = true
+			switch x := v.(type) {
+			case *ssa.UnOp:
+				if x.Op == token.MUL {
+					if typ, f, _, ok := an.FieldOf(x.X); ok && typ == "github.com/miekg/dns.Msg" && f == "Extra" {
+						return true
+					}
+					return fromExtra(x.X, d+1, seen)
+				}
+			case *ssa.IndexAddr:
+				return fromExtra(x.X, d+1, seen)
+			case *ssa.Slice:
+				return fromExtra(x.X, d+1, seen)
+			case *ssa.Phi:
+				for _, e := range x.Edges {
+					if fromExtra(e, d+1, seen) {
+						return true
+					}
+				}
+			case *ssa.Alloc:
+				// a literal such as [][]dns.RR{resp.Answer, resp.Ns, resp.Extra}
+				if x.Referrers() != nil {
+					for _, r := range *x.Referrers() {
+						if ia, ok := r.(*ssa.IndexAddr); ok && ia.Referrers() != nil {
+							for _, rr := range *ia.Referrers() {
+								if st, ok := rr.(*ssa.Store); ok && st.Addr == ssa.Value(ia) && fromExtra(st.Val, d+1, seen) {
+									return true
+								}
+							}
+						}
+					}
+				}
+			case *ssa.Call:
+				// dns.Copy(r) keeps the record's type
+				if strings.HasSuffix(an.CalleeName(x), "miekg/dns.Copy") && len(x.Call.Args) == 1 {
+					return fromExtra(x.Call.Args[0], d+1, seen)
+				}
+			case *ssa.Extract:
+				return fromExtra(x.Tuple, d+1, seen)
+			case *ssa.Next:
+				return fromExtra(x.Iter, d+1, seen)
+			case *ssa.Range:
+				return fromExtra(x.X, d+1, seen)
+			}
+			return false
+		}
+		an.Instrs(fn, func(in ssa.Instruction) {
+			st, ok := in.(*ssa.Store)
+			if !ok {
+				return
+			}
+			typ, field, base, ok := an.FieldOf(st.Addr)
+			if !ok || typ != "github.com/miekg/dns.RR_Header" || field != "Ttl" {
+				return
+			}
+			// base is the result of rr.Header()
+			hdr, ok := base.(*ssa.Call)
+			if !ok || !hdr.Call.IsInvoke() || hdr.Call.Method.Name() != "Header" {
+				return
+			}
+			if !fromExtra(hdr.Call.Value, 0, map[ssa.Value]bool{}) {
+				return
+			}
+			examined++
+			c.Analysed(k)
+			guarded := false
+			for _, e := range an.DominatingConds(st.Block()) {
+				switch cond := e.If.Cond.(type) {
+				case *ssa.BinOp:
+					for _, side := range []ssa.Value{cond.X, cond.Y} {
+						if kv, isK := an.ConstInt(side); isK && kv == optType {
+							// the edge taken is "type != OPT"
+							if (cond.Op == token.NEQ) == e.Branch || (cond.Op == token.EQL) == !e.Branch {
+								guarded = true
+							}
+						}
+					}
+				case *ssa.Extract:
+					if ta, isTA := cond.Tuple.(*ssa.TypeAssert); isTA && strings.HasSuffix(ta.AssertedType.String(), "dns.OPT") && !e.Branch {
+						guarded = true
+					}
+				}
+			}
+			c.Check(guarded, rule, k+" does not rewrite the TTL field of an OPT record", st.Pos(),
+				"the store is reached only for records that are not OPT",
+				"the TTL of every record of the additional section is overwritten, the OPT pseudo-record included: its TTL field holds the extended response code, the EDNS version and the DO bit, so a cached answer comes back with another version and without DO")
+		})
+	}
+	return examined
+}
